@@ -120,7 +120,7 @@ def _short(o):
     return r if len(r) <= 160 else r[:157] + "..."
 
 
-def diff(a, b, *, roots=("cirq",), ignore=(), normalize=None, max_depth=14, max_out=12):
+def diff(a, b, *, roots=("cirq",), ignore=(), normalize=None, rtol=0.0, type_mismatch="report", max_depth=14, max_out=12):
     """Differences between the stored fields of `a` and `b`.
 
     `roots`: module prefixes whose instances are opened up attribute by
@@ -131,6 +131,9 @@ def diff(a, b, *, roots=("cirq",), ignore=(), normalize=None, max_depth=14, max_
     `normalize`: {class name: f(obj) -> plain data}; instances of such a class
     are compared through f instead of attribute by attribute (for classes that
     keep the same value in several internal representations).
+    `rtol`: relative tolerance on numbers (0 = exact; a repr may print `x*np.pi/2`, which re-evaluates to 1 ulp off).
+    `type_mismatch`: "report" - two opened objects of different classes are a difference; "eq" - they are compared
+    with their own `==` (a repr may legitimately spell an equal value through another class, `cirq.Y(q)`).
     """
     normalize = normalize or {}
     out = []
@@ -157,7 +160,14 @@ def diff(a, b, *, roots=("cirq",), ignore=(), normalize=None, max_depth=14, max_
         if isinstance(x, (numbers.Number, np.generic)) and isinstance(y, (numbers.Number, np.generic)) \
                 and not _is_sympy(x) and not _is_sympy(y):
             if not _num_eq(x, y):
-                report()
+                close = False
+                if rtol:
+                    try:
+                        close = abs(x - y) <= rtol * max(abs(x), abs(y))
+                    except Exception:
+                        close = False
+                if not close:
+                    report()
             return
         if isinstance(x, (str, bytes)) or isinstance(y, (str, bytes)) or x is None or y is None:
             if type(x) is not type(y) or x != y:
@@ -185,6 +195,8 @@ def diff(a, b, *, roots=("cirq",), ignore=(), normalize=None, max_depth=14, max_
                 same = np.array_equal(xa, ya, equal_nan=True)
             except TypeError:
                 same = np.array_equal(xa, ya)
+            if not same and rtol and xa.dtype.kind in "fc" and ya.dtype.kind in "fc":
+                same = bool(np.allclose(xa, ya, rtol=rtol, atol=0, equal_nan=True))
             if not same:
                 report()
             return
@@ -285,6 +297,13 @@ def diff(a, b, *, roots=("cirq",), ignore=(), normalize=None, max_depth=14, max_
             return
         if opened(x) or opened(y):
             if type(x) is not type(y):
+                if type_mismatch == "eq":
+                    try:
+                        same = bool(x == y) and bool(y == x)
+                    except Exception:
+                        same = False
+                    if same:
+                        return
                 out.append(Diff(owner, field, path + "<type>", type(x).__name__, type(y).__name__))
                 return
             seen.add(key)
